@@ -42,6 +42,8 @@ func main() {
 		err = crashMode(num(2), int(num(3)), int(num(4)), int(num(5)), enc)
 	case "gate":
 		err = gateMode(num(2), int(num(3)), enc)
+	case "wire":
+		err = wireMode(num(2), enc)
 	case "replay":
 		err = replayMode(num(2), int(num(3)), enc)
 	case "multi":
